@@ -34,7 +34,17 @@ HASHGEN = ["Meddly.HashStreamGen." + t for t in [
 
 # family run: (family, flavor, extra args)
 def fam(name, flavor="plain", **kw):
-    return {"family": name, "flavor": flavor, "args": kw}
+    # keys starting with "_" are for the runner, not the harness: _only=<regex> keeps only the disagreements of
+    # another property's family that are THIS property's business (matched against the DIFF line)
+    spec = {"family": name, "flavor": flavor, "args": {k: v for k, v in kw.items() if not k.startswith("_")}}
+    for k, v in kw.items():
+        if k.startswith("_"):
+            spec[k[1:]] = v
+    return spec
+
+
+# disagreement kinds that are violations of C02 (the stored structure itself is malformed)
+STRUCT_KINDS = r"kind=(canonical|canonicity|node-count|crash|views-agree\S*|views-hash-alike\S*|unique-table-finds-node\S*)"
 
 
 PROPS = {
@@ -138,8 +148,8 @@ PROPS = {
                             "Meddly.Codec.isSingleton_truth", "Meddly.Codec.unpack_pack_full", "Meddly.Codec.unpack_pack_sparse",
                             "Meddly.HashStream.hash_agree"] + LEVELS + HASHGEN,
         "gen": ["Gen.Levels", "Gen.HashStream"],
-        "quick": [fam("canon"), fam("setops")],
-        "thorough": [fam("canon", "asan"), fam("setops", "asan")],
+        "quick": [fam("canon"), fam("setops"), fam("oplife", _only=STRUCT_KINDS)],
+        "thorough": [fam("canon", "asan"), fam("setops", "asan"), fam("oplife", "asan", _only=STRUCT_KINDS)],
         "leanchecker": ["MeddlyModel.Core.Dump"],
         "level_text": "The executable certificate checker Dump.check (no duplicate content, children strictly below and live, node-local reduction conditions, per-edge skipping conditions, root conditions) is proved sound: an accepted dump unfolds to trees in reduced form (Dump.check_sound, check_sound_node). It is run on a dump of EVERY active node of the real forest (public node-inspection API, full view) at every quiescent point of generated histories, for every MT forest kind and random storage / memory-manager / deletion policies; reported node count must equal the number of live nodes.",
         "level_note": "The checker's completeness (never rejects a good state) is not proved; it is supported by clean runs at many seeds. Sparse/full view agreement and hashing are checked only through unique-table effects. EV+ forests use the verified EDump.check; EV* forests: structural recount + model evaluation only. Translator tie: the level arithmetic (MDD_levels / MXD_levels / isLevelAbove, forest_levels.h + defines.h) and the hash stream primitives (hash_stream.h) are regenerated into Lean on every run; Props/Levels.lean proves that the model's position numbering (unprimed k = 2k, primed -k = 2k-1) is exactly the library's level order (downLevel = position-1, topLevel = larger position, isLevelAbove = position >) and Props/HashStreamGen.lean that the hand-written hash-stream model equals the generated functions, so hash_agree / push2_eq / hash_of_sequence are statements about the header's current text; the differential family gen validates both translators against the real inline functions.",
@@ -171,10 +181,10 @@ PROPS = {
             "no_reuse_while_cached", "all_reclaimed", "all_reclaimed_pessimistic", "release_never_fails"]] +
             ["Meddly.CounterArray." + t for t in ["counter_refines", "width_inv", "tally_exact"]] +
             ["Meddly.Dump.check_sound", "Meddly.Dump.evalFast_eq_evalChild"],
-        "quick": [fam("nodelife"), fam("canon")],
-        "thorough": [fam("nodelife", "asan"), fam("canon", "asan")],
+        "quick": [fam("nodelife"), fam("canon"), fam("oplife")],
+        "thorough": [fam("nodelife", "asan"), fam("canon", "asan"), fam("oplife", "asan")],
         "leanchecker": ["MeddlyModel.State.NodeLife", "MeddlyModel.State.CounterArray"],
-        "level_text": "NodeLife state machine (per handle free | active(level, in, cc, children) | deleted(cc); explicit multiset of outside references; pessimistic / optimistic policy) with theorems for EVERY legal op list: counts_exact (incoming count = number of references), no_dangling, held_alive, content_stable (a held node keeps level and children), reuse_only_free, no_reuse_while_cached, all_reclaimed (no references and no cache marks => every handle free; pessimistic: no references => no active handle). CounterArray refines a plain array of naturals through the 8/16/32-bit widening and narrowing. Tie: (D) a real forest driven at the primitive level (createReducedNode / link / unlink / cache / uncache / dd_edge set-copy-clear) with the state of EVERY handle compared with the model after every step, counts pushed across 255 and 65535, handle table grown and shrunk; the real counter_array class driven op by op; (S) in the canon family every dump is recounted (parents + registered roots = reported incoming count), every held edge is re-evaluated against its target after GC churn, and after releasing all edges and clearing caches the forest must report 0 nodes.",
+        "level_text": "NodeLife state machine (per handle free | active(level, in, cc, children) | deleted(cc); explicit multiset of outside references; pessimistic / optimistic policy) with theorems for EVERY legal op list: counts_exact (incoming count = number of references), no_dangling, held_alive, content_stable (a held node keeps level and children), reuse_only_free, no_reuse_while_cached, all_reclaimed (no references and no cache marks => every handle free; pessimistic: no references => no active handle). CounterArray refines a plain array of naturals through the 8/16/32-bit widening and narrowing. Tie: (D) a real forest driven at the primitive level (createReducedNode / link / unlink / cache / uncache / dd_edge set-copy-clear) with the state of EVERY handle compared with the model after every step, counts pushed across 255 and 65535, handle table grown and shrunk; the real counter_array class driven op by op; (S) in the canon family every dump is recounted (parents + registered roots = reported incoming count), every held edge is re-evaluated against its target after GC churn, and after releasing all edges and clearing caches the forest must report 0 nodes; family oplife does the same over random HISTORIES of real operations (set algebra, COMPLEMENT, COPY between rules, POST/PRE_IMAGE, integer and EV+ arithmetic, comparisons; edge copies, assignments, releases, cache clears) over up to four forests with random rules and policies on STRUCTURED operands (identity patterns, redundant and fixed variables - the shapes on which operations take early exits and chain builders): exact recount of every forest at random points, every result against the pointwise oracle, every held edge keeps its function, every forest empty at the end.",
         "level_note": "Paired (every creation/destruction of a reference carries its link/unlink) is the legality of the model run; on the implementation it is checked by the recount certificate, not assumed. A C++-level use-after-free cannot be exhibited by the theorem: the thorough tier runs the ASan flavour. Which free handle is picked is nondeterminism of the model. 'never delete' is indistinguishable from optimistic in the code and is mapped so.",
         "technique": "Lean 4 proof (invariants by induction over op lists, refinement) + step-by-step differential run on a real forest + recount certificate on dumps",
         "partial": ["mark-and-sweep forests not covered", "EV/quasi/identity forests only through the canon-family recount"],
